@@ -48,14 +48,37 @@ Proof.
   intros H Hn. eapply bank_send_nonneg; [exact H|lia|exact Hn].
 Qed.
 
+Lemma withdraw_nonneg c s sender to d amt s' r :
+  withdraw c s sender to d amt = Some (s', r) → bank_nonneg (bk s) → bank_nonneg (bk s').
+Proof.
+  intros H. apply withdraw_Some in H as (a & b1 & b2 & base & _ & _ & _ & Hamt & Hb1 & Hb2 & _ & _ & ->). cbn.
+  intros Hb. eapply bank_burn_nonneg; [exact Hb2|]. eapply bank_send_nonneg; [exact Hb1|lia|exact Hb].
+Qed.
+
+Lemma hook_msg_nonneg c s signer m s' : hook_msg c s signer m = Some s' → bank_nonneg (bk s) → bank_nonneg (bk s').
+Proof.
+  destruct m as [to d amt|sender to d amt]; cbn [hook_msg].
+  - intros H. apply bind_Some in H as (b & Hb & [= <-]). cbn. eapply hook_send_nonneg; eauto.
+  - destruct (negb _); [discriminate|]. intros H. apply bind_Some in H as ([s1 r1] & Hw & [= <-]).
+    eapply withdraw_nonneg; eauto.
+Qed.
+
+Lemma hook_fold_nonneg c signer msgs : ∀ s s',
+  foldl (λ os m, s ← os; hook_msg c s signer m) (Some s) msgs = Some s' → bank_nonneg (bk s) → bank_nonneg (bk s').
+Proof.
+  induction msgs as [|m msgs IH]; intros s s'; cbn [foldl]; [by intros [= <-]|].
+  cbn [mbind option_bind]. destruct (hook_msg c s signer m) as [s1|] eqn:E.
+  - intros H Hb. eapply IH; [exact H|]. eapply hook_msg_nonneg; eauto.
+  - rewrite hook_fold_None. discriminate.
+Qed.
+
 Lemma run_hook_nonneg c s h s1 ok : run_hook c s h = (s1, ok) → bank_nonneg (bk s) → bank_nonneg (bk s1).
 Proof.
-  unfold run_hook. destruct h as [| |signer tseq sig_ok sends]; try (intros [= <- <-]; done).
+  unfold run_hook. destruct h as [| |signer tseq sig_ok msgs]; try (intros [= <- <-]; done).
   destruct (p_hookgas (prm s) <? hook_gas_floor)%N; [intros [= <- <-]; done|].
   destruct (negb _); [intros [= <- <-]; done|].
-  destruct (foldl _ _ sends) as [b|] eqn:Hf; intros [= <- <-]; [|done]. cbn.
-  eapply (foldl_nonneg (λ b snd, hook_send c b signer snd)); [|exact Hf].
-  intros ? ? ? _. apply hook_send_nonneg.
+  destruct (foldl _ _ msgs) as [s2|] eqn:Hf; intros [= <- <-]; [|done].
+  intros Hb. eapply hook_fold_nonneg; [exact Hf|]. exact Hb.
 Qed.
 
 Lemma fd_tail_nonneg c s m s' r :
@@ -90,8 +113,7 @@ Proof.
   clear. intros s m s' r Hleaf H.
   destruct m as [f|w1 w2 w3 w4|b1 b2 b3 b4|i1 i2|u1 u2|v1 v2 v3|r1 r2|p1 p2 p3|sender inner]; cbn [handle] in H.
   - apply finalize_deposit_tail in H as [[_ ->]|(Hv & _ & _ & H)]; [done|]. eapply fd_tail_nonneg; eauto.
-  - apply withdraw_Some in H as (a & b1 & b2 & base & _ & _ & _ & Hamt & Hb1 & Hb2 & _ & _ & ->). cbn.
-    intros Hb. eapply bank_burn_nonneg; [exact Hb2|]. eapply bank_send_nonneg; [exact Hb1|lia|exact Hb].
+  - eapply withdraw_nonneg; eauto.
   - unfold bank_send_msg in H. destruct (valid_denom b3 && (0 <? b4)) eqn:E; [|discriminate]. cbn [negb] in H.
     apply andb_true_iff in E as [_ E]. apply Z.ltb_lt in E.
     apply bind_Some in H as (b & Hb & [= <- <-]). cbn. intros Hn. eapply bank_send_nonneg; [exact Hb|lia|exact Hn].
